@@ -5,6 +5,7 @@ package c08
 
 import (
 	"fmt"
+	"image/color"
 	"math"
 	"runtime"
 	"sync"
@@ -952,13 +953,26 @@ func TestPublicPaths(t *testing.T) {
 type MetaCase struct {
 	ViewBox [4]ops.F32 `json:"viewbox"`
 	NPal    int        `json:"palette_entries"` // 4-byte entries => chunk length 2+4n
+	// Form: bytes per palette entry the colours are chosen to need (1-3; 0 or 4: four), so that
+	// the chunk length 2+Form*n takes every value, 127, 128 and 129 included.
+	Form int `json:"form,omitempty"`
 }
 
 func checkMetaNumbers(c MetaCase) error {
 	var enc encode.Encoder
 	pal := ivg.DefaultPalette
 	for i := 0; i < c.NPal; i++ {
-		pal[i].R, pal[i].G, pal[i].B, pal[i].A = uint8(i), uint8(i), uint8(i), 0x70+uint8(i)
+		switch c.Form {
+		case 1:
+			ch := []uint8{0x00, 0x40, 0x80, 0xc0, 0xff}
+			pal[i] = color.RGBA{0xff, ch[i%5], ch[i/5%5], 0xff}
+		case 2:
+			pal[i] = color.RGBA{0x11 * uint8(1+i%15), 0x22, 0x11 * uint8(i/15), 0xff}
+		case 3:
+			pal[i] = color.RGBA{uint8(i + 1), 0x12, 0x34, 0xff}
+		default:
+			pal[i].R, pal[i].G, pal[i].B, pal[i].A = uint8(i), uint8(i), uint8(i), 0x70+uint8(i)
+		}
 	}
 	vb := ivg.ViewBox{MinX: float32(c.ViewBox[0]), MinY: float32(c.ViewBox[1]), MaxX: float32(c.ViewBox[2]), MaxY: float32(c.ViewBox[3])}
 	enc.Reset(vb, pal)
@@ -1012,6 +1026,17 @@ func TestMetadataNumbers(t *testing.T) {
 		}
 		subMeta.See(c, true, harness.HashJSON(c), fmt.Sprintf("palette-chunk-length-%s", map[bool]string{true: ">=128", false: "<128"}[2+4*n >= 128]))
 		subMeta.Run(t, c)
+		for form := 1; form <= 3; form++ {
+			c.Form = form
+			l := "palette-chunk-length<127"
+			if k := 2 + form*n; k >= 127 && k <= 129 {
+				l = fmt.Sprintf("palette-chunk-length=%d", k)
+			} else if k > 129 {
+				l = "palette-chunk-length>129"
+			}
+			subMeta.See(c, true, harness.HashJSON(c), l)
+			subMeta.Run(t, c)
+		}
 	}
 	harness.Rapid(t, harness.N(8000, 16*80000), func(t *rapid.T) {
 		var v [4]float32
